@@ -343,7 +343,9 @@ public:
 	return std::nullopt;
       SectorAddress addr;
       const auto sectors_per_side = geom_.cylinders * geom_.sectors;
-      addr.head = lba / sectors_per_side;
+      // geom_ describes this one side; the sectors on it were recorded
+      // with head == side_ (see check_track_is_supported).
+      addr.head = static_cast<unsigned char>(side_);
       lba = lba % sectors_per_side;
       addr.cylinder = lba / geom_.sectors;
       addr.record = lba % geom_.sectors;
